@@ -467,6 +467,18 @@ def run(case):
 
 
 def classify(v, case):
+    tr = v["detail"].get("trace", "") if v["mech"] == "unexpected_exception" else ""
+    if ("AttributeError" in tr and "charset" in tr and case["cffVersion"] == 1
+            and case["optimizeCFF"] >= 2):
+        # the exported glyph order is a prefix of the predefined ISOAdobe charset (e.g. only
+        # '.notdef' is left once the non-exported glyphs are gone): C04's listed finding
+        from vf.props.c04 import ISO_PREFIX
+        skip = set(case.get("skip") or [])
+        names = [g["name"] for g in case["ufo"]["glyphs"] if g["name"] not in skip]
+        if ".notdef" not in names:
+            names = [".notdef"] + names
+        if sorted(names) == sorted(ISO_PREFIX[:len(names)]):
+            return "cffsubr_predefined_charset_unsavable"
     if v["mech"] == "unexpected_exception" and "tx:" in v["detail"].get("trace", ""):
         if (case["cffVersion"] == 2 and case["optimizeCFF"] >= 2
                 and not any(len(c) > 1 for g in case["ufo"]["glyphs"] for c in g["contours"])):
